@@ -6,15 +6,17 @@ prints the implementation's.
 -/
 import A10Verif.Model.Basic
 import A10Verif.Model.Addr
+import A10Verif.Model.Life
 
 open A10
 
 structure DriverState where
-  dummy : Unit := ()
+  life : Life.Sys := {}
 
 def dispatch (st : DriverState) (toks : List String) : DriverState × List String :=
   match toks with
   | "addr" :: _ => (st, Addr.stepLine toks)
+  | "life" :: _ => let (s, o) := Life.stepLine st.life toks; ({ st with life := s }, o)
   | _ => (st, ["bad-op"])
 
 partial def loop (h : IO.FS.Stream) (out : IO.FS.Stream) (st : DriverState) : IO Unit := do
